@@ -11,6 +11,9 @@ from .. import sweepprops as S
 
 LEVEL = 'proof'
 NEEDS = ['CorrIdentifyGen', 'CorrIdentifyGenConf', 'PyRt', 'IdentifyGenLemmas', 'IdentifyGenConf', 'IdentifyGenConfProofs', 'Bridge', 'BridgeProofs', 'Base', 'Digraph', 'DigraphProofs', 'Identify', 'IdentifyProofs', 'DSep', 'DSepProofs', 'CorrDag', 'IdentifyDSep']
+# the code translated from the source on every run: when the translator REFUSES the current source the run falls back to the
+# hand-written model and its correspondence (harness/main.py)
+GEN_SOFT = dict(generated=['IdentifyGenConf'], modules=['CorrIdentifyGenConf', 'IdentifyGenConf', 'IdentifyGenConfProofs'])
 KNOWN = 'F12: identify_confounders is not always a sufficient adjustment set (algorithmic; call site identify_confounders, clause "sufficient adjustment set")'
 
 ORDER_FNS = [('identify_confounders', identify_confounders, 2)]
